@@ -5,6 +5,8 @@ Line protocol of engine `global`.
 T-step request:  `init=<sink|-> <t>.<r|->:<op>[:<a>[:<b>]] ...`
   ops: attach:s dropAttach forgetAttach setTL:s dropTL setRT:r:s setRTCur:s dropRT:r append:e tryAppend:e
        sink:e trySink:e isAttached hold:k useHeld:k:e
+       aliases dropAttachU dropAttachT dropTLU dropRTU:r dropRTT:r — the guard/handle is dropped by the unwinder of a
+       contained panic (a `catch_unwind` scope / a spawned thread that owns it); a drop is a drop: same model event
   reply: one result per op, space separated: `ok noop panic d<sink> ret<entry> none T F` (`-` for an empty script)
 
 T-trace request: `race closed=<0|1> trace=<t>.<k>.<0|1>,...|- written=<t>.<k>,...|-`
@@ -27,12 +29,18 @@ def parseCtx (s : String) : Option Ctx :=
 def parseOp : List String → Option Op
   | ["attach", s] => s.toNat?.map .attach
   | ["dropAttach"] => some .dropAttach
+  -- dropped by a contained unwinding panic (scope / spawned thread): the same event in the model
+  | ["dropAttachU"] => some .dropAttach
+  | ["dropAttachT"] => some .dropAttach
   | ["forgetAttach"] => some .forgetAttach
   | ["setTL", s] => s.toNat?.map .setTL
   | ["dropTL"] => some .dropTL
+  | ["dropTLU"] => some .dropTL
   | ["setRT", r, s] => do pure (.setRT (← r.toNat?) (← s.toNat?))
   | ["setRTCur", s] => s.toNat?.map .setRTCur
   | ["dropRT", r] => r.toNat?.map .dropRT
+  | ["dropRTU", r] => r.toNat?.map .dropRT
+  | ["dropRTT", r] => r.toNat?.map .dropRT
   | ["append", e] => e.toNat?.map .append
   | ["tryAppend", e] => e.toNat?.map .tryAppend
   | ["sink", e] => e.toNat?.map .sink
